@@ -111,7 +111,12 @@ template <class T> static inline void reference(const T a[4][4], int n, Ref<T>& 
 		if (n == 1) { d = 1; S = 1; } else d = leibniz(r.m, n - 1, rows, cols, &S);
 		r.adj[c][k] = ((k + c) & 1) ? -d : d; r.Sadj[c][k] = S;
 	}
-	r.singular = (r.det == 0);
+	// an exactly singular matrix (repeated columns, ...) leaves rounding noise of the reference arithmetic in the Leibniz sum
+	// (|error| <= n! eps_Q S_det): a determinant inside that noise is singular to reference precision, not "kappa = noise"
+	{
+		const R epsQ = sizeof(T) == 4 ? 1.0842021724855044e-19L /* 2^-63 */ : 1.925929944387236e-34L /* 2^-112 */;
+		r.singular = (r.det == 0) || rabs((R)r.det) <= 1024 * epsQ * (R)r.Sdet;
+	}
 	r.kappa = INFINITY; r.invmax = 0;
 	if (r.singular) return;
 	R mm[4][4], im[4][4];
